@@ -875,6 +875,35 @@ impl OpenIndex {
     }
 }
 
+/// A reader-side variant type that knows only the variants whose bit is set in MASK (typed reading
+/// path of `examples/custom_read.rs`: `Layout::variant_id_builder::<T>()`): a variant the type does
+/// not know reads as None, a known one as itself, whatever the other variants of the store.
+#[derive(Clone, Copy, Debug, PartialEq, Eq)]
+pub struct KnownVariant<const MASK: u8>(pub u8);
+
+impl<'a, const MASK: u8> TryFrom<&'a str> for KnownVariant<MASK> {
+    type Error = ();
+    fn try_from(name: &'a str) -> Result<Self, ()> {
+        match VNAMES.iter().position(|n| *n == name) {
+            Some(i) if MASK >> i & 1 == 1 => Ok(KnownVariant(i as u8)),
+            _ => Err(()),
+        }
+    }
+}
+
+fn typed_variant_ids<const MASK: u8>(store: &jbk::reader::EntryStore, first: usize, count: usize) -> Result<Vec<Option<u8>>, String> {
+    use jbk::reader::builder::PropertyBuilderTrait;
+    let Some(b) = store.layout().variant_id_builder::<KnownVariant<MASK>>() else {
+        return Err("the layout has no variant id".into());
+    };
+    let mut out = Vec::with_capacity(count);
+    for i in first..first + count {
+        let r = store.get_entry_reader(jbk::EntryIdx::from(i as u32)).ok_or_else(|| format!("no entry reader for store position {i}"))?;
+        out.push(b.create(&r).map_err(|e| format!("typed variant id of store position {i}: {e}"))?.map(|k| k.0));
+    }
+    Ok(out)
+}
+
 /// Compare one index of an opened directory pack with the model.
 pub fn verify_store_against_model(
     dp: &Arc<jbk::reader::DirectoryPack>,
@@ -927,6 +956,34 @@ pub fn verify_store_against_model(
                             }
                         }
                     }
+                }
+            }
+        }
+        // typed reading of the variant with reader types that know only some of the store's variants
+        if !sm.schema.variants.is_empty() && *cnt > 0 {
+            let store = match oi.index.get_store(&estorage) {
+                Ok(s) => s,
+                Err(e) => fail!(format!("{sig_prefix}store-unreadable"), "index {wname}: {e}"),
+            };
+            let typed = [(0b00101u8, typed_variant_ids::<0b00101>(&store, *off, *cnt)), (0b11010, typed_variant_ids::<0b11010>(&store, *off, *cnt)), (0b10000, typed_variant_ids::<0b10000>(&store, *off, *cnt))];
+            for (mask, got) in typed {
+                let got = match got {
+                    Ok(g) => g,
+                    Err(e) => fail!(format!("{sig_prefix}entry-error"), "index {wname}: {e}"),
+                };
+                for (i, g) in got.iter().enumerate() {
+                    let v = sm.expected_at(off + i).0.expect("store with variants");
+                    let want = if mask >> v & 1 == 1 { Some(v) } else { None };
+                    ensure!(
+                        *g == want,
+                        format!("{sig_prefix}typed-variant-mismatch"),
+                        "index {wname} entry {i} was written as variant {v} ({}); a reader type knowing the variants {:?} reads it as {:?}, expected {:?}",
+                        VNAMES[v as usize],
+                        (0..5).filter(|k| mask >> k & 1 == 1).map(|k| VNAMES[k]).collect::<Vec<_>>(),
+                        g,
+                        want
+                    );
+                    evals += 1;
                 }
             }
         }
